@@ -406,6 +406,36 @@ func genLineFloat(t *rapid.T) Case {
 	return Case{Mode: "linefloat", LineF: line, PF: [2]model.F{model.Of(px), model.Of(py)}}
 }
 
+// genLineLattice: a polyline on a small whole-number lattice times an exact power of
+// two from one end of the float64 range to the other, and a point of the same lattice
+// on the line through a segment - before it, on it, beyond it - or one lattice step
+// aside. Collinearity is exact at every scale; products of differences underflow or
+// overflow at the ends of the range.
+func genLineLattice(t *rapid.T) Case {
+	e := rapid.SampledFrom([]int{-1074, -1073, -1070, -1060, -1022, -1000, -600, -545, -540, -538, -530, -520, 0, 500, 505, 511, 1000, 1015}).Draw(t, "le")
+	n := rapid.IntRange(2, 5).Draw(t, "ln")
+	ipts := make([][2]int, n)
+	for i := range ipts {
+		ipts[i] = [2]int{rapid.IntRange(-6, 6).Draw(t, "lx"), rapid.IntRange(-6, 6).Draw(t, "ly")}
+		if i > 0 && ipts[i] == ipts[i-1] && rapid.Bool().Draw(t, "lmove") {
+			ipts[i][0]++
+		}
+	}
+	i := rapid.IntRange(1, n-1).Draw(t, "lseg")
+	a, b := ipts[i-1], ipts[i]
+	k := rapid.SampledFrom([]int{-2, -1, 0, 1, 2, 3, 5}).Draw(t, "lk")
+	p := [2]int{a[0] + k*(b[0]-a[0]), a[1] + k*(b[1]-a[1])}
+	if rapid.IntRange(0, 3).Draw(t, "laside") == 0 {
+		p[rapid.IntRange(0, 1).Draw(t, "lasidedim")] += rapid.SampledFrom([]int{1, -1}).Draw(t, "lasideby")
+	}
+	sc := func(v int) model.F { return model.Of(math.Ldexp(float64(v), e)) }
+	line := make([][2]model.F, n)
+	for j, q := range ipts {
+		line[j] = [2]model.F{sc(q[0]), sc(q[1])}
+	}
+	return Case{Mode: "linefloat", Class: "lattice-scaled", LineF: line, PF: [2]model.F{sc(p[0]), sc(p[1])}}
+}
+
 // genRingFloat: a closed ring of finite doubles and a query point placed on, a
 // few ulps beside, or level with its edges and vertices. Magnitude classes:
 // moderate (the translation p1-p is already inexact), offset (a small shape far
@@ -600,6 +630,9 @@ func genRingWide(t *rapid.T) Case {
 func genCase(t *rapid.T) Case {
 	if rapid.IntRange(0, 14).Draw(t, "ringwide") == 7 {
 		return genRingWide(t)
+	}
+	if rapid.IntRange(0, 19).Draw(t, "linelattice") == 11 {
+		return genLineLattice(t)
 	}
 	switch rapid.IntRange(0, 11).Draw(t, "mode") {
 	case 0, 1:
